@@ -70,20 +70,6 @@ def isClosed (cs : List Con) : Bool := cs.all fun c => !c.strict
 /-- a returned function: point with positive divisor, dimension `n+1` -/
 def muWellFormed (n dim : Nat) (g : Gen) : Bool := dim == n + 1 && g.kind == .point && decide (0 < g.div)
 
-/-- generator-wise checks of the two quasi spaces -/
-def quasiGenOK (n : Nat) (R : List Con) (decreasing : Bool) (g : Gen) : Bool :=
-  let row (c : List Int) (e : Int) : Con := if decreasing then decrRow n c e else valueRow n c
-  match g.kind with
-  | .point => decide (0 < g.div) && implies (2*n) R (row g.coords g.div)
-  | .ray => implies (2*n) R (row g.coords 0)
-  | .line => implies (2*n) R (row g.coords 0) && implies (2*n) R (row (g.coords.map (- ·)) 0)
-  | .cpoint => false
-
-/-- for the space of functions bounded by `0`, a ray direction must keep `μ(x) ≥ 0`: the row
-    `valueRow` already contains the constant coordinate, so `row coords 0` is the right test -/
-def quasiOK (n : Nat) (R : List Con) (decreasing : Bool) (gs : List Gen) : Bool :=
-  gs.all (quasiGenOK n R decreasing)
-
 structure Verd where
   ln : Nat
   what : String
